@@ -2,6 +2,7 @@ package main
 
 import (
 	"bytes"
+	"compress/bzip2"
 	"crypto/sha256"
 	"encoding/binary"
 	"encoding/hex"
@@ -145,6 +146,8 @@ func directDecompressStream(format string, payload []byte, tail string) ([]byte,
 		r = lz4.NewReader(in)
 	case "xor":
 		r = &xorReader{r: in}
+	case "bz2":
+		r = bzip2.NewReader(in)
 	default:
 		return nil, "unsupported"
 	}
